@@ -297,11 +297,15 @@ func (r *rng) fillVal(v *val, prev *val, mode valueMode) *val {
 			nv.Bool = prev.Bool
 		}
 	case 0x09:
-		// datetime within the range Go expresses in nanoseconds (|ms| < 2^63/10^6)
+		// datetime, mostly within the range Go expresses in nanoseconds (|ms| < 2^63/10^6)
 		const lim = int64(9223372036854)
 		x := r.i64Value(prev, mode)
 		if x > lim || x < -lim {
 			x = x % lim
+		}
+		if r.chance(1, 12) {
+			// beyond it: Go's zero time (year 1), 1600, 2300, and the first milliseconds past the nanosecond range
+			x = []int64{-62135596800000, -11676096000000, 10413792000000, lim + 1, -lim - 1}[r.intn(5)]
 		}
 		nv.I = x
 	case 0x10:
